@@ -34,6 +34,15 @@ pub uninterp spec fn params_supplies(p: &ParamsV) -> Seq<Dependency>;
 impl ParamsV { #[verifier::external_body] pub fn supplies(&self) -> (r: Vec<Dependency>) ensures r@ == params_supplies(self) { unimplemented!() } }
 #[verifier::external_body] pub struct BodyV { x: usize }
 pub uninterp spec fn body_net(b: &BodyV) -> Seq<Dependency>;
+// how many FUNCTION boundaries a dependency has crossed on its way outward: only after crossing one may a same-named plain local of the surrounding
+// code stand for a captured variable (eq_allow_callbacks); a block (if / while / from body) is not a function boundary (D97)
+pub uninterp spec fn dep_cycles(d: &Dependency) -> nat;
+pub uninterp spec fn dep_ident(d: &Dependency) -> int;
+impl Dependency { #[verifier::external_body] pub fn increment_cycle(&mut self) ensures dep_cycles(final(self)) == dep_cycles(old(self)) + 1, dep_ident(final(self)) == dep_ident(old(self)), dep_name(final(self)) == dep_name(old(self)) { unimplemented!() } }
+pub open spec fn crossed(a: Seq<Dependency>, b: Seq<Dependency>) -> bool { b.len() == a.len() && forall|i: int| 0 <= i < a.len() ==> dep_ident(#[trigger] &b[i]) == dep_ident(&a[i]) && dep_name(&b[i]) == dep_name(&a[i]) && dep_cycles(&b[i]) == dep_cycles(&a[i]) + 1 }
+// get_net_dependencies(item, is_scope) (unit c07_net_deps)
+pub uninterp spec fn net_of_block(b: &Block, is_scope: bool) -> Seq<Dependency>;
+#[verifier::external_body] pub fn get_net_dependencies(b: &Block, is_scope: bool) -> (r: Vec<Dependency>) ensures r@ == net_of_block(b, is_scope) { unimplemented!() }
 impl BodyV { #[verifier::external_body] pub fn net_dependencies(&self) -> (r: Vec<Dependency>) ensures r@ == body_net(self) { unimplemented!() } }
 // ---- the capture list
 #[verifier::external_body] pub struct VString { x: usize }
@@ -76,9 +85,22 @@ def build(repo):
     bd = translate(list(extract_fn(ib["body"], "dependencies")["body"]), [
         Rule("R2", "self . 0 . iter ( ) . flat_map ( | $x | $x . net_dependencies ( ) ) . collect ( )", "flat_map_net ( & self . 0 )", why="iter().flat_map(|x| x.net_dependencies()).collect(): the statements' free variables in order"),
         Rule("R1", "let block_dependencies = $$e ;", "let block_dependencies : Vec < Dependency > = $$e ;", why="type ascription")], log, "Block::dependencies", generic=False)
+    bn = translate(list(extract_fn(ib["body"], "net_dependencies")["body"]), [], log, "Block::net_dependencies", generic=False)
+    check_closed(bn, "Block::net_dependencies")
+    try:
+        fc = src.fn("compiler/src/ast.rs", "crossing_function_boundary")
+        bc = translate(fc["body"], [
+            Rule("R2", "for dependency in & mut dependencies { $$body }", lambda b: ["let ghost verif_d0 = dependencies@ ; let mut verif_k : usize = 0 ; while verif_k < dependencies . len ( )",
+                 G("invariant verif_k <= dependencies@.len(), dependencies@.len() == verif_d0.len(), forall|i: int| 0 <= i < verif_k ==> dep_ident(#[trigger] &dependencies@[i]) == dep_ident(&verif_d0[i]) && dep_name(&dependencies@[i]) == dep_name(&verif_d0[i]) && dep_cycles(&dependencies@[i]) == dep_cycles(&verif_d0[i]) + 1, forall|i: int| verif_k <= i < verif_d0.len() ==> #[trigger] dependencies@[i] == verif_d0[i], decreases dependencies@.len() - verif_k"),
+                 "{ let mut dependency = dep_take ( & dependencies , verif_k ) ;", *b["body"], "dependencies . set ( verif_k , dependency ) ; verif_k += 1 ; }"], count=1, why="for over &mut Vec -> indexed while (take, change, put back)"),
+        ], log, "crossing_function_boundary")
+        check_closed(bc, "crossing_function_boundary")
+        cross_txt = render(bc, 1)
+    except Undecided:
+        cross_txt = None
     ifn = src.item(FUNC, "impl Dependencies for Function")
     fs = list(extract_fn(ifn["body"], "supplies")["body"])
-    fd = list(extract_fn(ifn["body"], "dependencies")["body"])
+    fd = translate(list(extract_fn(ifn["body"], "dependencies")["body"]), [Rule("R1", "crate :: ast :: crossing_function_boundary", "crossing_function_boundary", why="path of the helper")], log, "Function::dependencies", generic=False)
     for t, w in ((bs, "Block::supplies"), (bd, "Block::dependencies"), (fs, "Function::supplies"), (fd, "Function::dependencies")):
         check_closed(t, w)
     # in_place_compile_for_value: from `let dependencies = self.net_dependencies();` to the make_function instruction
@@ -109,7 +131,25 @@ def build(repo):
     ], log, "Function::in_place_compile_for_value[capture list]")
     check_closed(cap, "in_place_compile_for_value")
     gen = header(log, f"{BODY}: impl Dependencies for Block; {FUNC}: impl Dependencies for Function, Function::in_place_compile_for_value (capture list)") + SPEC + f"""
+#[verifier::external_body] pub fn dep_take(v: &Vec<Dependency>, k: usize) -> (r: Dependency) requires k < v@.len() ensures r == v@[k as int] {{ unimplemented!() }}
+""" + (f"""
+//@ OBL C07.function.crossing
+pub fn crossing_function_boundary(dependencies: Vec<Dependency>) -> (r: Vec<Dependency>) ensures crossed(dependencies@, r@)
+{{{{
+    let mut dependencies = dependencies;
+{cross_txt}
+}}}}
+""" if cross_txt else """
+// (no such helper in the source: a Function hands on its body's dependencies as they are)
+#[verifier::external_body] pub fn crossing_function_boundary(dependencies: Vec<Dependency>) -> (r: Vec<Dependency>) ensures crossed(dependencies@, r@) {{ unimplemented!() }}
+""") + f"""
 impl Block {{
+    //@ OBL C07.block.net
+    // a block (also the body of an if / while / from) is NOT a function boundary
+    pub fn net_dependencies(&self) -> (r: Vec<Dependency>) ensures r@ == net_of_block(self, false)
+    {{
+{render(bn, 2)}
+    }}
     //@ OBL C07.block.supplies
     pub fn supplies(&self) -> (r: Vec<Dependency>) ensures r@ == cat_supplies(self.0@)
     {{
@@ -129,7 +169,8 @@ impl FunctionV {{
 {render(fs, 2)}
     }}
     //@ OBL C07.function.dependencies
-    pub fn dependencies(&self) -> (r: Vec<Dependency>) ensures r@ == body_net(&self.body)
+    // the body's free variables, each having crossed one more function boundary
+    pub fn dependencies(&self) -> (r: Vec<Dependency>) ensures crossed(body_net(&self.body), r@)
     {{
 {render(fd, 2)}
     }}
@@ -151,8 +192,11 @@ fn main() {{}}
     obls = [Obl("C07.block.supplies", ["C07"], fn="Block::supplies", desc="Block::supplies: what its statements supply, in order"),
             Obl("C07.block.dependencies", ["C07"], fn="Block::dependencies", desc="Block::dependencies: the free variables of its statements, in order, none dropped"),
             Obl("C07.function.supplies", ["C07"], fn="Function::supplies", desc="Function::supplies: its parameters"),
-            Obl("C07.function.dependencies", ["C07"], fn="Function::dependencies", desc="Function::dependencies: its body's free variables"),
+            Obl("C07.function.dependencies", ["C07"], fn="Function::dependencies", desc="Function::dependencies: its body's free variables, each marked as having crossed one more function boundary"),
+            Obl("C07.block.net", ["C07"], fn="Block::net_dependencies", desc="Block::net_dependencies: a block is not a function boundary (D97: a captured variable read inside an if / loop body was taken for a same-named local declared later in the function)"),
             Obl("C07.function.capture-list", ["C07"], fn="Function::in_place_compile_for_value[capture list]", desc="in_place_compile_for_value: make_function is given the label followed by exactly the names of the function's net dependencies")]
+    if cross_txt:
+        obls.append(Obl("C07.function.crossing", ["C07"], fn="crossing_function_boundary", desc="crossing_function_boundary: the same dependencies, each with one more function boundary crossed"))
     return gen, obls, log
 
 
